@@ -174,7 +174,12 @@ def analyse(case, approx_override=None, skip=()):
 def solve(An, rank_gap=(5e-4, 1e-10)):
     """numpy solution of the reference system; None when the rank is numerically ambiguous"""
     S = An.constr if An.constr else None
-    R = ref_linalg.solve(An.A, An.rhs, An.Q, S, rank_gap=rank_gap)
+    if not (np.all(np.isfinite(An.A)) and np.all(np.isfinite(An.rhs))):
+        return None                 # degenerate geometry (coincident points): no reference
+    try:
+        R = ref_linalg.solve(An.A, An.rhs, An.Q, S, rank_gap=rank_gap)
+    except np.linalg.LinAlgError:
+        return None
     return R
 
 
